@@ -163,3 +163,68 @@ VARIANTS += [
     silent("s2-letfiller-children-through-loop",
            [(FL, '        sexpr = [block_type, *[self.visit(stmt) for stmt in block.statements]]\n        return sexpr', '        sexpr = [block_type]\n        for stmt in block.statements:\n            sexpr.append(self.visit(stmt))\n        return sexpr')], ("C05",)),
 ]
+
+VARIANTS += [
+    fire("s2-slice-start-constant",
+         [(RG, "                start = alias_slice.start or 0\n", "                start = 0\n")],
+         ("*", "Register.__init__:slice-start"), ("C14", "C06")),
+    fire("s2-slice-start-and",
+         [(RG, "                start = alias_slice.start or 0\n", "                start = alias_slice.start and 0\n")],
+         ("*", "Register.__init__:slice-start"), ("C14", "C06")),
+    fire("s2-slice-stop-default-polarity",
+         [(RG, "                stop = alias_from.size if alias_slice.stop is None else alias_slice.stop", "                stop = alias_from.size if alias_slice.stop is not None else alias_slice.stop")],
+         ("*", "Register.__init__:slice-stop"), ("C14", "C06")),
+    fire("s2-slice-stop-from-start",
+         [(RG, "                stop = alias_from.size if alias_slice.stop is None else alias_slice.stop", "                stop = alias_from.size if alias_slice.stop is None else alias_slice.start")],
+         ("*", "Register.__init__:slice-stop"), ("C14", "C06")),
+    fire("s2-resolve-size-stop-from-start",
+         [(RG, "        stop = self.alias_slice.stop\n", "        stop = self.alias_slice.start\n")],
+         ("*", "Register.resolve_size:slice-stop"), ("C14", "C06")),
+    fire("s2-resolve-qubit-step-from-start",
+         [(RG, "        step = self.alias_slice.step\n        if step is None:\n            step = 1\n\n        def resolve_annotated_value(value):\n            while isinstance(value, AnnotatedValue):\n                value = value.resolve_value(context)\n            return value\n\n        start = resolve_annotated_value(start)\n        step = resolve_annotated_value(step)\n\n        return", "        step = self.alias_slice.start\n        if step is None:\n            step = 1\n\n        def resolve_annotated_value(value):\n            while isinstance(value, AnnotatedValue):\n                value = value.resolve_value(context)\n            return value\n\n        start = resolve_annotated_value(start)\n        step = resolve_annotated_value(step)\n\n        return")],
+         ("*", "Register.resolve_qubit:slice-step"), ("C14", "C06")),
+    silent("s2-slice-start-ifexp",
+           [(RG, "                start = alias_slice.start or 0\n", "                start = 0 if alias_slice.start is None else alias_slice.start\n")], ("C14", "C06")),
+]
+
+ST = "src/jaqalpaq/core/stretch.py"
+VARIANTS += [
+    fire("s2-stretch-idle-flag-false",
+         [(ST, "            add_idle = True\n", "            add_idle = False\n")],
+         ("C18.10", "stretched_gates:idle-flag"), ("C18",)),
+    fire("s2-stretch-idle-twin-negated",
+         [(ST, "        if add_idle:\n", "        if not add_idle:\n")],
+         ("C18.10", "stretched_gates:idle-twin"), ("C18",)),
+    fire("s2-stretch-idle-twin-unnamed",
+         [(ST, "            new_gate = IdleGateDefinition(new_gate, name=new_name)", "            new_gate = IdleGateDefinition(new_gate)")],
+         ("C18.10", "stretched_gates:idle-twin"), ("C18",)),
+]
+
+# strengthenings after seed round 6
+CB = "src/jaqalpaq/core/circuitbuilder.py"
+VARIANTS += [
+    fire("r6-stretch-name-deduplicated-once",
+         [(ST, "        while any(param.name == stretch_name for param in parameters):", "        if any(param.name == stretch_name for param in parameters):")],
+         ("C18.6", "stretched_gates:appended-parameter-name"), ("C18",)),
+    fire("r6-relinker-native-by-equality",
+         [(CB, "            if gate_def is gate.gate_def:\n                return False, gate\n            # A statement built on its own", "            if gate_def == gate.gate_def:\n                return False, gate\n            # A statement built on its own")],
+         ("C13.8", "RebuildMacroInContextVisitor.visit_GateStatement:unchanged-gate"), ("C13",)),
+    fire("r6-parallel-state-conjunction",
+         [(WK, "                if before[0] is not self.current or before[1] != len(self.subcircuits):", "                if before[0] is not self.current and before[1] != len(self.subcircuits):")],
+         ("C13.11", "DiscoverSubcircuits.visit_BlockStatement:parallel-branches"), ("C13",)),
+    fire("r6-discover-zero-loop-early-return",
+         [(WK, "    def visit_LoopStatement(self, obj, context=None):\n        return self.visit(obj.statements, context=context, reps=obj.iterations)", "    def visit_LoopStatement(self, obj, context=None):\n        if obj.iterations <= 0:\n            return {}\n        return self.visit(obj.statements, context=context, reps=obj.iterations)")],
+         ("*", "DiscoverSubcircuits.visit_LoopStatement:every-path"), ("C08", "C13")),
+    fire("r6-inner-constant-declared-value",
+         [(FL, "            return self.resolve_constant(const.value)\n", "            return const.value.resolve_value()\n")],
+         ("C05.13", "LetFiller.resolve_constant:constant-of-constant"), ("C05",)),
+    fire("r6-macro-table-bound-late",
+         [(ES, "        self.new_macros = new_circuit.macros\n        for name, macro in circuit.macros.items():\n            new_circuit.macros[name] = self.visit(macro)\n", "        new_circuit.macros.update(\n            (name, self.visit(macro)) for name, macro in circuit.macros.items()\n        )\n        self.new_macros = new_circuit.macros\n")],
+         ("C09.12", "SubcircuitExpander.visit_Circuit:macro-table"), ("C09",)),
+    fire("r6-gate-eq-through-float",
+         [(GT, "            if isinstance(p0, float) and math.isnan(p0):\n                return isinstance(p1, float) and math.isnan(p1)\n            return p0 == p1", "            if isinstance(p0, (int, float)) and isinstance(p1, (int, float)):\n                p0, p1 = float(p0), float(p1)\n                if math.isnan(p0):\n                    return math.isnan(p1)\n            return p0 == p1")],
+         ("C20.10", "GateStatement:__eq__:coercion"), ("C20",)),
+    silent("r6-macro-table-filled-through-update",
+           [(ES, "        for name, macro in circuit.macros.items():\n            new_circuit.macros[name] = self.visit(macro)\n", "        new_circuit.macros.update(\n            (name, self.visit(macro)) for name, macro in circuit.macros.items()\n        )\n")],
+           ("C09",)),
+]
